@@ -60,9 +60,9 @@ TOL_DOMAIN = 1e-12
 # strip map: within END_BAND of s = +-1 the derivative may be replaced by its end-point limit (it is what any float64
 # evaluation of G'(u)/cos(u) has to do somewhere); the true g'(s) differs from g'(+-1) by O(tau*sqrt(2(1-|s|))).
 END_BAND = 1.01e-8
-TOL_END_BAND = 1e-3  # pure relative; calibrated below
+TOL_END_BAND = 1e-3  # pure relative; largest value seen on the unchanged tree 2.9e-6 (rho near 1.05, SingleTanh/TanhSinh bases)
 TOL_SPELL = 1e-12  # nodes/weights for a parameter spelled as int / NumPy scalar / 0-d array vs. the Python float spelling
-TOL_F32 = 1e-4  # np.float32-typed parameter: NumPy keeps scalar prefactors in float32 (eps 1.2e-7)
+TOL_F32 = 3e-4  # np.float32-typed parameter: NumPy keeps scalar prefactors in float32 (eps 1.2e-7); largest value seen 1.05e-6
 TOL_SERIES = 2e-12  # 100 x the largest value seen on the unchanged tree (2.0e-14 at n=386, n = 2..400); max |w - w(series minus last term)| / (2/n): only classifies a FejerSecond failure (signature)
 # "ascending up to rounding": where the exact nodes crowd a finite domain end closer than float64 resolves (tanh saturating to
 # 1.0, exp underflowing to 0.0, a map applied to such a base rule) neighbouring nodes may tie or swap by rounding. A non-increasing
@@ -82,7 +82,14 @@ RULE = (
     "functions = identity for all j+k <= nominal degree (1e-9), largest exact degree measured on failure; (iii) definition oracle: "
     "nodes = documented node map in mpmath, weights = step x numerically differentiated node map (x base weight for Trefethen maps), "
     "sine-mode exactness for the sine rectangle rule (1e-9 relative). A case is non-trivial when an oracle (ii) or (iii) was evaluated "
-    "on a grid with >= 2 nodes; distinct = distinct (class, n, parameter)."
+    "on a grid with >= 2 nodes; distinct = distinct (class, n, parameter). Further input classes: general-bases = TrefethenGeneral (d=5,9) and "
+    "TrefethenStripGeneral (rho=1.1 and random) over EVERY admissible base rule (17 classes on [-1,1] incl. TanhSinh, SingleTanh, Simpson, the "
+    "Trefethen rules themselves) x 12 (quick) / 24 (thorough) sizes, plus sizes 600..1001 (quick) / 600..2001 (thorough) for the 10 bases whose nodes "
+    "crowd the end points; large-n-strip = TrefethenStripCC/GC2/CC/GC2 at those large sizes; the definition check is per node at EVERY node, nodes with "
+    "0 < 1-|s| <= 1e-8 (where the end-point limit of the derivative is admitted) under their own clause with relative tolerance 1e-3. "
+    "param-spellings = every real-valued parameter (delta, h, alpha, rho; d) given as Python int, np.int64, np.int32, np.float64, np.float32 and 0-d "
+    "array (integer values 1,2,3 / 0..3 where admissible, and a non-integer value): result must equal the rule of the equal Python float (1e-12; "
+    "float32: 3e-4) and satisfy the definition / Gram oracle; sizes are passed as int, np.int64 (n%3==0) and np.int32 (n%5==0)."
 )
 ASSUMPTIONS = [
     "nominal degrees as in the property statement (Gauss 2n-1; Clenshaw-Curtis/Fejer n-1; Simpson 3; trapezoid/midpoint 1)",
@@ -90,6 +97,9 @@ ASSUMPTIONS = [
     "Gauss-Laguerre is decided for n <= 150 (beyond n ~ 185 exp(x_max) overflows; recorded as observation)",
     "the strip map is the one of Hale & Trefethen 2008 (typed from the paper, verified to map the rho-ellipse onto a strip)",
     "tolerances: Gram entries 1e-9 absolute; definition 1e-9 relative with absolute floor 1e-13",
+    "strip maps: for base nodes with 0 < 1-|s| <= 1e-8 the library's use of the end-point limit g'(+-1) is admitted (relative deviation <= 1e-3 granted, 2.9e-6 seen); every node farther from the ends is held to 1e-9",
+    "ascending is decided up to rounding: a tie / step back <= 16 eps between two nodes that both lie within 1e-12 of a finite domain end is tolerated (saturating node maps), anything else is a violation",
+    "a np.float32-typed parameter is granted float32 accuracy (3e-4 relative): NumPy keeps float32 scalars in float32 arithmetic; 0-d array parameters that a constructor rejects are counted, not decided",
 ]
 LEVEL_TEXT = "Every rule class x every n up to 400 (thorough) decided by independent Gram-matrix / definition oracles on the real constructor outputs; n beyond the sweep is not observed."
 TECHNIQUE = "runtime monitoring: invariant on OneDGrid.__init__ + post-conditions (orthonormal Gram matrices, mpmath node-map differentiation) on every rule constructor"
